@@ -7,6 +7,9 @@ WHITESPACE = [' ', ' ', ' ', '\t', '\n', '\n', '\r', '\r\n', '\x0b', '\x0c', '\x
               '\x85', '\xa0', ' ', ' ', '　', ' ', ' ']
 LETTERS = list('aAbBeExXzZsS_') + ['À', 'Ü', 'é', 'ß', 'Ж', '中', '×', 'İ']
 DIGITS = list('0123456789') + ['٣', '²']
+# characters that a compatibility / case / width folding maps onto a delimiter: full-width and typographic forms
+CONFUSABLE = ['\uff07', '\uff02', '\uff40', '\uff0a\uff0f', '\uff0f\uff0a', '\uff04', '\uff04\uff04', '\uff1b', '\uff0d\uff0d', '\uff3c', '\uff08', '\uff09',
+              '\u2019', '\u2018', '\u02bc', '\u201c', '\u201d', '\u2032', '\u2033', '\ufe54', '\u037e', '\u2028', '\u2029', '\ufe69', '\u2215', '\u2217']
 ODD = ['\x00', '\x01', '\x7f', '\ud800', '\udfff', '\U0001f600', '\U00010400', '﻿', '​', '́']
 
 FRAGMENTS = [
@@ -25,7 +28,7 @@ FRAGMENTS = [
 
 _char = st.one_of(
     st.sampled_from(SPECIAL), st.sampled_from(SPECIAL), st.sampled_from(WHITESPACE), st.sampled_from(WHITESPACE),
-    st.sampled_from(LETTERS), st.sampled_from(LETTERS), st.sampled_from(DIGITS), st.sampled_from(ODD),
+    st.sampled_from(LETTERS), st.sampled_from(LETTERS), st.sampled_from(DIGITS), st.sampled_from(ODD), st.sampled_from(CONFUSABLE),
     st.sampled_from(FRAGMENTS), st.sampled_from(FRAGMENTS), st.sampled_from(FRAGMENTS),
     st.characters(exclude_categories=()),
 )
@@ -44,7 +47,7 @@ def body_chars():
     """single characters for region bodies (C05/C14): full character set, special characters favoured"""
     return st.one_of(
         st.sampled_from(SPECIAL), st.sampled_from(WHITESPACE), st.sampled_from(LETTERS), st.sampled_from(DIGITS),
-        st.sampled_from(ODD), st.characters(exclude_categories=()),
+        st.sampled_from(ODD), st.characters(exclude_categories=()), st.sampled_from(CONFUSABLE),
         st.sampled_from([';', "';'", 'GO', 'END', 'BEGIN', '--', '/*', '*/', '$$', "''", '""', '``', 'é', '\n', '\r\n']),
     )
 
